@@ -31,6 +31,7 @@ type GenConfig struct {
 	// NoMovedSet: no array set-by-index once an element has been moved (finding P13 is judged by the
 	// properties it belongs to; elsewhere such a set becomes an insert at the same index)
 	NoMovedSet bool
+	Faults     bool // allow Sx: a storage call of the request fails (before or after taking effect), the client retries
 }
 
 var keys = []string{"k1", "k2", "k3"}
@@ -248,7 +249,11 @@ func Generate(r *rng.R, g GenConfig) *History {
 				h.Steps = append(h.Steps, Step{Op: "Kf", C: c})
 			}
 		case 9:
-			h.Steps = append(h.Steps, Step{Op: "Sl", C: c})
+			if g.Faults && r.Chance(1, 2) {
+				h.Steps = append(h.Steps, Step{Op: "Sx", C: c, FaultN: r.Range(1, 9), FaultAfter: r.Bool()})
+			} else {
+				h.Steps = append(h.Steps, Step{Op: "Sl", C: c})
+			}
 		case 10:
 			h.Steps = append(h.Steps, Step{Op: "Rt", C: c})
 		case 8:
